@@ -666,7 +666,12 @@ func (w *walker) stmt(s ast.Stmt, held []string) []string {
 	case *ast.IncDecStmt:
 		w.expr(t.X, held, true)
 	case *ast.SendStmt:
-		w.expr(t.Chan, held, false)
+		if sel, ok := t.Chan.(*ast.SelectorExpr); ok {
+			w.record(sel, false, held, "chan-send")
+			w.expr(sel.X, held, false)
+		} else {
+			w.expr(t.Chan, held, false)
+		}
 		w.expr(t.Value, held, false)
 	case *ast.ReturnStmt:
 		for _, r := range t.Results {
